@@ -220,4 +220,16 @@ CLAIMS = {
         'note': 'Trusted: clang 14 CFG, tools/grfacts, rules/c10.py, rules/c13.py.  Value-level lookup arithmetic inside TtfUtil is out of reach.',
         'technique': 'parameter taint (use classification) + sibling / who-may-call / who-may-read tables over resolved declarations',
     },
+    'C06': {
+        'text': 'C06 is almost entirely a statement about the output of rule programs (FSM walk, start-state choice, per-slot constraint '
+                'evaluation, cursor adjustment, equality with a reference semantics): NOT decidable by static analysis and not claimed.  '
+                'Decided, very narrowly, as necessary conditions: the comparison-only function RuleEntry::operator< is evaluated over all 9 '
+                'order types of (sort key, rule address) and must be "longer sort key first, then earlier rule"; the qsort comparator and the '
+                'cross-state merge use it in both directions and drop duplicates; findNDoRule runs the action of the first candidate whose '
+                'constraint passed; none of the 45 opcode handlers bound for constraint code calls a stream mutator and the loader rejects '
+                'non-immutable constraints (so a rule that does not fire leaves the glyph unchanged); the pass index only moves forward apart '
+                'from the tabled bidi re-entry; freed slots have their whole user-attribute block wiped before reuse.',
+        'note': 'Trusted: clang 14 CFG, tools/grfacts, rules/c06.py, rules/vm.py.  Everything about which rule matches where is out of reach of this family.',
+        'technique': 'abstract evaluation over order types (comparison-only function) + structural / call-set purity rules',
+    },
 }
